@@ -320,16 +320,19 @@ var c09Snippets = []struct{ tag, src string }{
 // the job a child process runs
 
 type c09Job struct {
-	Kind    string   `json:"kind"` // evals | clones | clone-rerun
-	Srcs    []string `json:"srcs"` // one per evaluation (evals); Srcs[0] defines functions (clones)
-	Share   bool     `json:"share"`
-	ModDir  string   `json:"mod_dir"`
-	Procs   int      `json:"procs"`
-	Threads int      `json:"threads"`
-	Calls   []int    `json:"calls"`   // clones: argument of each concurrent call
-	Sync    string   `json:"sync"`    // hold: barrier | yield | sleep | none (what hold_sync() does in the concurrent run)
-	PayLen  int      `json:"pay_len"` // hold: length of every evaluation's own payload
-	Plain   bool     `json:"plain"`   // run the child without the race detector (undisturbed scheduling and sync.Pool behaviour)
+	Kind    string     `json:"kind"` // evals | clones | clone-rerun
+	Srcs    []string   `json:"srcs"` // one per evaluation (evals); Srcs[0] defines functions (clones)
+	Share   bool       `json:"share"`
+	ModDir  string     `json:"mod_dir"`
+	Procs   int        `json:"procs"`
+	Threads int        `json:"threads"`
+	Calls   []int      `json:"calls"`          // clones: argument of each concurrent call
+	Sync    string     `json:"sync"`           // hold: barrier | yield | sleep | none (what hold_sync() does in the concurrent run)
+	PayLen  int        `json:"pay_len"`        // hold: length of every evaluation's own payload
+	Plain   bool       `json:"plain"`          // run the child without the race detector (undisturbed scheduling and sync.Pool behaviour)
+	Reqs    [][]c09Req `json:"reqs,omitempty"` // serve: per worker, the requests it issues back to back (c09srv.go)
+	Only    int        `json:"only,omitempty"` // registry: k+1 = run evaluation k only, alone in this process; 0 = all
+	Seq     bool       `json:"seq,omitempty"`  // registry: run the evaluations one after the other in this process
 }
 
 type c09Out struct {
@@ -716,6 +719,14 @@ func c09RunHold(job *c09Job, conc bool) []string {
 		}
 	}
 	options := func(k int) []risor.Option {
+		if job.Kind == "registry" { // own Go object behind a proxy; the Go TYPE (and its registry entry) is shared
+			return append(c09RegGlobals(k),
+				risor.WithGlobal("pid", k),
+				risor.WithGlobal("hold_sync", object.NewBuiltin("hold_sync", func(ctx context.Context, args ...object.Object) object.Object {
+					syncFn()
+					return object.Nil
+				})))
+		}
 		return []risor.Option{
 			risor.WithGlobal("payload", c09HoldPayload(k, job.PayLen)),
 			risor.WithGlobal("pid", k),
@@ -747,6 +758,12 @@ func c09RunHold(job *c09Job, conc bool) []string {
 			return
 		}
 		res[k] = c09Show(risor.Eval(ctx, job.Srcs[0], opts...))
+	}
+	if job.Only > 0 {
+		if job.Only <= n {
+			one(job.Only - 1)
+		}
+		return res
 	}
 	if !conc {
 		for k := 0; k < n; k++ {
@@ -782,7 +799,7 @@ func c09HoldDiffTags(conc, alone string) []string {
 			return
 		}
 		t := s[j+2 : j+e]
-		if !seen[t] && c09HoldTag(t) >= 0 {
+		if !seen[t] && (c09HoldTag(t) >= 0 || c09RegTag(t) >= 0) {
 			seen[t] = true
 			tags = append(tags, t)
 		}
@@ -810,8 +827,10 @@ func c09RunJob(job *c09Job, conc bool) []string {
 		return c09RunClones(job, conc)
 	case "clone-rerun":
 		return c09RunCloneRerun(job, conc)
-	case "hold":
+	case "hold", "registry":
 		return c09RunHold(job, conc)
+	case "serve":
+		return c09RunServe(job, conc)
 	}
 	return c09RunEvals(job, conc)
 }
@@ -834,7 +853,7 @@ func c09Child(args []string) {
 	if job.Procs > 0 {
 		runtime.GOMAXPROCS(job.Procs)
 	}
-	out := c09Out{Results: c09RunJob(&job, true)}
+	out := c09Out{Results: c09RunJob(&job, !job.Seq && job.Only == 0)}
 	json.NewEncoder(os.Stdout).Encode(out)
 }
 
@@ -1191,12 +1210,33 @@ func c09_runC09(e *Env) {
 		"Go-method calls with 14 first-use parameter types and imports through one shared importer (shared compiled code or separately compiled), " +
 		"snippet programs touching codecs/int+byte caches/errz/os args/importer/proxies, clones of one VM calling a function, Clone during a re-run, " +
 		"and hold schedules (every evaluation has its own payload, produces values with 1..6 of 39 builtin/module operations, lets the others run at a barrier/yield/sleep, " +
-		"then observes the held values twice; every operation first on its own with 2..4 evaluations on one P, then random mixes, with and without the race detector); " +
+		"then observes the held values twice; every operation first on its own with 2..4 evaluations on one P, then random mixes, with and without the race detector), " +
+		"serve schedules (1..6 workers issue 2..6 requests each back to back through risor.Eval / EvalCode / vm.Run / risor.Call, each request under its own WithCancel/WithTimeout/WithDeadline/Background context released " +
+		"right after it returned / from inside the worker's next request / when the worker is done / by itself during the run; every result compared with its closed-form stand-alone result and with the Lean machine model), " +
+		"and registry schedules (hold schedules over objects out of the process-wide Go-type registry obtained through proxies — type objects, attributes maps, method / field objects, their types, bound methods — " +
+		"which every evaluation edits and prints; reference = the evaluation alone in a fresh process; run concurrently and back to back in one process); " +
 		"non-trivial when >= 2 evaluations touch the same inventoried location (always, by construction, except single-snippet sets without shared state); distinct by the full job text"
 	tab := c09LoadTable(e)
 	if len(tab.byFn) < 10 {
 		e.R.Mismatch("table", "-", "-", "oracle returned no inventory")
 		return
+	}
+	// the reviewed tables behind registry_hands_out_fresh_or_immutable / machine_sources_match, as the
+	// oracle sees them: every row must pass the rule, and vm.Run must allocate per request
+	for _, row := range strings.Split(e.O.Ask("C09", "regrows"), ";") {
+		f := strings.Split(row, "|")
+		if len(f) != 5 {
+			continue
+		}
+		e.R.H("registry_rows", f[1]+" "+f[3])
+		if f[4] != "1" {
+			e.R.Mismatch("regrows "+row, "-", "not fresh, not immutable", "a reviewed registry row is neither constructed per request nor of an immutable type")
+		}
+	}
+	for _, fn := range []string{"vm.Run", "vm.New", "vm.NewEmpty", "vm.VirtualMachine.Clone"} {
+		if rep := e.O.Ask("C09", "machsrc", fn); rep != "fresh" {
+			e.R.Mismatch("machsrc "+fn, "-", rep, "the reviewed table says this function does not allocate its machine per request")
+		}
 	}
 	tmp, err := os.MkdirTemp("", "c09-")
 	if err != nil {
@@ -1219,8 +1259,10 @@ func c09_runC09(e *Env) {
 	runner := &c09Runner{bin: bin, plain: self, race: race, tmp: tmp, timeout: 120 * time.Second}
 
 	nModel, nSnip, nClone, nRerun, nHold := 60, 40, 8, 2, 60
+	nServe, nReg := 24, 2*len(c09RegOps)+8
 	if !e.Quick {
 		nModel, nSnip, nClone, nRerun, nHold = 1200, 700, 90, 10, 900
+		nServe, nReg = 200, 2*len(c09RegOps)+100
 	}
 	if !c09CloneRerunScenario {
 		nRerun = 0
@@ -1230,6 +1272,7 @@ func c09_runC09(e *Env) {
 		key   string
 		prog  *c09Prog
 		class string
+		serve *c09ServeSpec
 	}
 	var scheds []sched
 	holds := map[string]c09HoldSpec{}
@@ -1242,7 +1285,7 @@ func c09_runC09(e *Env) {
 		for k := 0; k < n; k++ {
 			job.Srcs = append(job.Srcs, p.src)
 		}
-		scheds = append(scheds, sched{job, fmt.Sprintf("model n=%d share=%v procs=%d prog=%s", n, job.Share, job.Procs, p.tokens), p, "model"})
+		scheds = append(scheds, sched{job, fmt.Sprintf("model n=%d share=%v procs=%d prog=%s", n, job.Share, job.Procs, p.tokens), p, "model", nil})
 	}
 	for i := 0; i < nSnip; i++ {
 		n := 2 + rng.Intn(15)
@@ -1261,7 +1304,7 @@ func c09_runC09(e *Env) {
 		if same {
 			job.Share = rng.Bool()
 		}
-		scheds = append(scheds, sched{job, fmt.Sprintf("snippets n=%d share=%v procs=%d %s", n, job.Share, job.Procs, strings.Join(job.Srcs, " ## ")), nil, "snippets:" + tags[0]})
+		scheds = append(scheds, sched{job, fmt.Sprintf("snippets n=%d share=%v procs=%d %s", n, job.Share, job.Procs, strings.Join(job.Srcs, " ## ")), nil, "snippets:" + tags[0], nil})
 	}
 	for i := 0; i < nClone; i++ {
 		n := 2 + rng.Intn(15)
@@ -1271,7 +1314,7 @@ func c09_runC09(e *Env) {
 		for k := 0; k < n; k++ {
 			job.Calls = append(job.Calls, rng.Intn(300))
 		}
-		scheds = append(scheds, sched{job, fmt.Sprintf("clones n=%d procs=%d a=%d b=%d calls=%v", n, job.Procs, a, b, job.Calls), nil, "clones"})
+		scheds = append(scheds, sched{job, fmt.Sprintf("clones n=%d procs=%d a=%d b=%d calls=%v", n, job.Procs, a, b, job.Calls), nil, "clones", nil})
 	}
 	for i := 0; i < nRerun; i++ {
 		n := 1 + rng.Intn(4)
@@ -1281,7 +1324,7 @@ func c09_runC09(e *Env) {
 		for k := 0; k < n; k++ {
 			job.Calls = append(job.Calls, rng.Intn(100))
 		}
-		scheds = append(scheds, sched{job, fmt.Sprintf("clone-rerun n=%d procs=%d src2=%q calls=%v", n, job.Procs, src2, job.Calls), nil, "clone-rerun"})
+		scheds = append(scheds, sched{job, fmt.Sprintf("clone-rerun n=%d procs=%d src2=%q calls=%v", n, job.Procs, src2, job.Calls), nil, "clone-rerun", nil})
 	}
 
 	hrng := e.Rng.Fork() // own stream: the schedules above stay what they were for a given seed
@@ -1311,8 +1354,75 @@ func c09_runC09(e *Env) {
 			h.ops = append([]int(nil), perm[:k]...)
 		}
 		job, key := h.job()
-		scheds = append(scheds, sched{job, key, nil, "hold"})
+		scheds = append(scheds, sched{job, key, nil, "hold", nil})
 		holds[key] = h
+	}
+
+	// serve and registry schedules (c09srv.go), each class on its own random stream
+	srng := e.Rng.Fork()
+	for i := 0; i < nServe; i++ {
+		sp := c09GenServe(srng, i)
+		job, key := sp.job()
+		scheds = append(scheds, sched{job, key, nil, "serve", &sp})
+	}
+	rrng := e.Rng.Fork()
+	regs := map[string]c09RegSpec{}
+	for i := 0; i < nReg; i++ {
+		h := c09GenReg(rrng, i)
+		job, key := h.job()
+		if _, dup := regs[key]; dup {
+			continue
+		}
+		regs[key] = h
+		scheds = append(scheds, sched{job, key, nil, "registry", nil})
+	}
+
+	// the stand-alone reference of a registry evaluation: evaluation k by itself in a FRESH process
+	type aloneKey struct {
+		src   string
+		k     int
+		share bool
+	}
+	alone := map[aloneKey]string{}
+	{
+		var keys []aloneKey
+		for _, s := range scheds {
+			if s.class != "registry" {
+				continue
+			}
+			for k := 0; k < s.job.Threads; k++ {
+				ak := aloneKey{s.job.Srcs[0], k, s.job.Share}
+				if _, ok := alone[ak]; !ok {
+					alone[ak] = ""
+					keys = append(keys, ak)
+				}
+			}
+		}
+		var mu sync.Mutex
+		var wg sync.WaitGroup
+		sem := make(chan struct{}, 6)
+		for _, ak := range keys {
+			wg.Add(1)
+			sem <- struct{}{}
+			go func(ak aloneKey) {
+				defer wg.Done()
+				defer func() { <-sem }()
+				job := &c09Job{Kind: "registry", Srcs: []string{ak.src}, Share: ak.share, Procs: 1, Threads: ak.k + 1, Sync: "none", Plain: true, Only: ak.k + 1}
+				r, _, se, err := runner.run(job)
+				out := ""
+				switch {
+				case err != nil:
+					out = fmt.Sprintf("alone child failed: %v: %s", err, se)
+				case len(r) > ak.k:
+					out = r[ak.k]
+				}
+				mu.Lock()
+				alone[ak] = out
+				mu.Unlock()
+			}(ak)
+		}
+		wg.Wait()
+		e.R.H("registry_alone_children", strconv.Itoa(len(keys)))
 	}
 
 	// sequential reference + oracle, in order (deterministic), then the concurrent children in parallel
@@ -1322,7 +1432,16 @@ func c09_runC09(e *Env) {
 	}
 	refs := make([]ref, len(scheds))
 	for i, s := range scheds {
+		if s.class == "registry" {
+			for k := 0; k < s.job.Threads; k++ {
+				refs[i].seq = append(refs[i].seq, alone[aloneKey{s.job.Srcs[0], k, s.job.Share}])
+			}
+			continue
+		}
 		refs[i].seq = c09RunJob(s.job, false)
+		if s.serve != nil {
+			c09ServeReference(e, srng, s.key, s.serve, refs[i].seq)
+		}
 		if s.prog != nil {
 			n := len(s.job.Srcs)
 			// a random complete interleaving for the model
@@ -1400,7 +1519,33 @@ func c09_runC09(e *Env) {
 	minimised := map[string]bool{}
 	for i, s := range scheds {
 		o := outs[i]
-		e.R.Case(s.key, len(s.job.Srcs) >= 2 || len(s.job.Calls) >= 1 || (s.class == "hold" && s.job.Threads >= 2))
+		e.R.Case(s.key, len(s.job.Srcs) >= 2 || len(s.job.Calls) >= 1 || ((s.class == "hold" || s.class == "registry") && s.job.Threads >= 2) || (s.class == "serve" && len(refs[i].seq) >= 2))
+		if s.class == "serve" {
+			for _, rs := range s.job.Reqs {
+				for _, rq := range rs {
+					e.R.H("serve_api", rq.API)
+					e.R.H("serve_context", rq.Ctx)
+					e.R.H("serve_context_released", rq.Cancel)
+				}
+			}
+			e.R.H("serve_workers", fmt.Sprintf("%02d", len(s.job.Reqs)))
+			e.R.H("serve_race_detector", fmt.Sprintf("%v", !s.job.Plain))
+		}
+		if s.class == "registry" {
+			h := regs[s.key]
+			e.R.H("registry_mode", map[bool]string{true: "back to back", false: "concurrent"}[h.seq])
+			e.R.H("registry_sync", s.job.Sync)
+			e.R.H("registry_race_detector", fmt.Sprintf("%v", !s.job.Plain))
+			for _, o := range h.ops {
+				e.R.H("registry_operation", c09RegOps[o].tag)
+			}
+			for t, r := range refs[i].seq {
+				if !strings.HasPrefix(r, "list:") {
+					e.R.Mismatch(s.key, r, "list:[...]", fmt.Sprintf("registry program of evaluation %d does not evaluate alone in a fresh process (harness menu out of date?)", t))
+					break
+				}
+			}
+		}
 		if s.class == "hold" {
 			e.R.H("hold_sync", s.job.Sync)
 			e.R.H("hold_race_detector", fmt.Sprintf("%v", !s.job.Plain))
@@ -1529,7 +1674,38 @@ func c09_runC09(e *Env) {
 			if s.class == "clone-rerun" && t == 0 {
 				continue // the re-running VM's last result is compared below like the others
 			}
-			if o.res[t] != seq[t] && s.class == "hold" {
+			if s.class == "serve" {
+				w, j := 0, t
+				for w < len(s.job.Reqs) && j >= len(s.job.Reqs[w]) {
+					j -= len(s.job.Reqs[w])
+					w++
+				}
+				rq := s.job.Reqs[w][j]
+				if c09ReqAccepts(rq, w, j, o.res[t]) {
+					e.R.H("result", "same as alone")
+					continue
+				}
+				e.R.H("result", "differs")
+				if nDiffNotes < 6 {
+					nDiffNotes++
+					e.R.Note("serve: request %d of worker %d (%s) returned %q, alone %s", j, w, rq, o.res[t], strings.Join(c09ReqExpect(rq, w, j), " or "))
+				}
+				e.R.Spec(s.key, fmt.Sprintf("request %d of worker %d (%s through the top-level API, its own context %s) returned %q while other requests ran / other requests' contexts were released; alone it returns %s",
+					j, w, rq, map[bool]string{true: "was cancelled by itself during the run", false: "was NOT cancelled before it returned"}[rq.Cancel == "self"], o.res[t], strings.Join(c09ReqExpect(rq, w, j), " or ")), "")
+			} else if o.res[t] != seq[t] && s.class == "registry" {
+				e.R.H("result", "differs")
+				h := regs[s.key]
+				mode := "concurrently with the other evaluations"
+				if h.seq {
+					mode = "back to back with the other evaluations in one process"
+				}
+				if nDiffNotes < 6 {
+					nDiffNotes++
+					e.R.Note("registry object changed: %s: evaluation %d %s %q, alone %q", s.key, t, mode, o.res[t], seq[t])
+				}
+				e.R.Spec(s.key, fmt.Sprintf("evaluation %d (own Go object, pid %d): object(s) obtained from the process-wide Go-type registry differ from what the evaluation gets alone in a fresh process (operations %v): %s %q, alone %q",
+					t, t, c09HoldDiffTags(o.res[t], seq[t]), mode, o.res[t], seq[t]), "")
+			} else if o.res[t] != seq[t] && s.class == "hold" {
 				e.R.H("result", "differs")
 				if nDiffNotes < 6 {
 					nDiffNotes++
@@ -1559,6 +1735,6 @@ func c09_runC09(e *Env) {
 			e.R.H("sequential_result_type", k)
 		}
 	}
-	e.R.Note("%d schedules (%d model-covered, %d snippet sets, %d clone sets, %d clone-during-rerun, %d hold), race detector: %v, %d child processes, %d parallel",
-		len(scheds), nModel, nSnip, nClone, nRerun, nHold, race, runner.n, par)
+	e.R.Note("%d schedules (%d model-covered, %d snippet sets, %d clone sets, %d clone-during-rerun, %d hold, %d serve, %d registry), race detector: %v, %d child processes, %d parallel",
+		len(scheds), nModel, nSnip, nClone, nRerun, nHold, nServe, len(regs), race, runner.n, par)
 }
